@@ -150,6 +150,9 @@ class Interp:
                         return ('int', {ast.Add: a[1] + b[1], ast.Sub: a[1] - b[1], ast.Mult: a[1] * b[1]}[type(n.op)])
                     except KeyError:
                         return ('int', U())
+                da, db = c.res(a[1]), c.res(b[1])
+                if isinstance(n.op, ast.Sub) and isinstance(da, str) and isinstance(db, str) and da != db and '-' not in da + db:
+                    return ('int', '%s-%s' % (da, db))        # a derived extent (N-M): equal only to itself
                 return ('int', U())
             if isinstance(n.op, ast.MatMult):
                 return self.dot(n, a, b)
@@ -261,6 +264,10 @@ class Interp:
                 elif e.step is None and (e.lower is None or norm(e.lower) == '0') and e.upper is not None \
                         and (self.ev(e.upper) or (None,))[0] == 'int' and isinstance(self.ctx.res(self.ev(e.upper)[1]), str):
                     out.append(self.ctx.res(self.ev(e.upper)[1]))      # x[:N]: the leading N entries of that axis
+                elif e.step is None and e.upper is None and e.lower is not None and (self.ev(e.lower) or (None,))[0] == 'int' \
+                        and isinstance(self.ctx.res(self.ev(e.lower)[1]), str) and isinstance(self.ctx.res(dims[pos]), str) \
+                        and '-' not in self.ctx.res(self.ev(e.lower)[1]) + self.ctx.res(dims[pos]) and self.ctx.res(self.ev(e.lower)[1]) != self.ctx.res(dims[pos]):
+                    out.append('%s-%s' % (self.ctx.res(dims[pos]), self.ctx.res(self.ev(e.lower)[1])))      # x[M:] on an axis of extent N
                 else:
                     out.append(U())
                 pos += 1
